@@ -18,7 +18,10 @@
 (*   wfault  the pending conn.Write fails after n bytes (error / timeout)  *)
 (*   rok     the handler's Read returns nil (a frame arrived)              *)
 (*   rfault  the handler's Read returns an error: peer closed (eof), read  *)
-(*           error, read timeout, handler-level error                      *)
+(*           error, read timeout, handler-level error; or SetReadDeadline  *)
+(*           fails before the next Read (dl).  A failing SetWriteDeadline  *)
+(*           is a wfault with n = 0.  What conn.Close() returns is not     *)
+(*           modelled: it changes nothing that is required.                *)
 (*   panic   the handler's Read panics                                     *)
 (* Internal actions (one per step of a loop): SPop, SWClosed, RClosed,     *)
 (* Quit, X1..X4 (the four effects of the exit body).                       *)
@@ -125,7 +128,7 @@ Do(a) ==
        [] a.op = "wok"    -> DoWok(a)
        [] a.op = "wfault" -> DoWfault(a)
        [] a.op = "rok"    -> DoRok(a)
-       [] a.op = "rfault" -> a.k \in {"eof", "err", "timeout", "herr"} /\ DoRend(a, "rfault")
+       [] a.op = "rfault" -> a.k \in {"eof", "err", "timeout", "herr", "dl"} /\ DoRend(a, "rfault")
        [] a.op = "panic"  -> DoRend(a, "panic")
        [] OTHER -> FALSE
 
@@ -214,7 +217,7 @@ ActsOf(s) ==
           n \in {k \in 1..2 : Len(c.acc) + k <= MaxBytes}, r \in {"ok", "err"}}
   \cup [op : {"close", "wok", "rok", "panic"}, s : {s}]
   \cup [op : {"wfault"}, s : {s}, n : 0..1]
-  \cup [op : {"rfault"}, s : {s}, k : {"eof", "err", "timeout", "herr"}]
+  \cup [op : {"rfault"}, s : {s}, k : {"eof", "err", "timeout", "herr", "dl"}]
 
 Tau == [op |-> "tau"]
 Next ==
